@@ -153,9 +153,29 @@ PROPS["C06"] = {
     "assumptions": COMMON_ASSUME,
 }
 
+PROPS["C13"] = {
+    "extract": [],
+    "rule": "cases = for each file of a corpus (mp4: rewrite, no-op, until-EOF moov, until-EOF mdat with and without cumulative size, truncated, missing moov, unknown box, moov over the limit, three random remux files; webp: documentation example, lossy, extended still with ICCP/EXIF/XMP, lossy+alpha with a trailing unknown chunk, animation with ALPH+VP8 and VP8L frames, truncated, wrong order, unknown chunk denied) the number N of read/skip/position/length operations of the fault-free run is measured, then every operation index 0..N-1 x {Other, PermissionDenied, TimedOut, WouldBlock, InvalidData, UnexpectedEof} is injected (fault_enumeration, exhaustive per file), sync for both sanitizers and async for mp4, plus one fault scheduled after the last operation. non-trivial = the fault was consumed (tag consumed); distinct = distinct (file, mode, index, kind)",
+    "trivial_if_any": ["past"],
+    "exhaustive": {"quick": True, "thorough": True},
+    "explanation": "exhaustive = every operation index of every corpus run x all six error kinds",
+    "shards": {"quick": 4, "thorough": 8},
+    "trusted_base": [
+        "harness/src/c13.rs: fault-injecting Read+Skip / AsyncRead+AsyncSkip wrappers around a Cursor-like sparse reader",
+        "lean/MediaSan/Adapters.lean: BufReader(32) over a raw input whose k-th operation fails (index-aligned with the real mp4 reader stack); for webpsan the nested per-level buffers make indices implementation-specific, so faulted webp runs are judged by the Spec and by the generic theorem only",
+        "read_exact retries only ErrorKind::Interrupted (not among the injected kinds)",
+    ],
+    "assumptions": COMMON_ASSUME,
+}
+
 NOT_APPLICABLE = {}
 
 MANIFEST_TEXT = {
+    "C13": {
+        "text": "Lean theorems: for EVERY program written in the I/O-program language (in particular both sanitizers), every cursor, fault position and error kind, a fault injected at operation k yields the fault-free outcome (run ends before k), Io(e), or - for UnexpectedEof only - the parse error of the map_eof site: never success and never a panic (run_faulty, instantiated as C13_fault_mp4 / C13_fault_webp); every read/skip of the MP4 sanitizer is a map_eof site (EofMapped, proved structurally over the whole program); on the ideal in-memory cursor the MP4 sanitizer never returns Io except InvalidInput/InvalidData for a seek target beyond u64 (C13_memory_mp4). Correspondence: exhaustive fault enumeration over a corpus x six kinds, sync and async; the MP4 model on BufReader(32)-over-faulty-input must reproduce the real outcome at every fault index.",
+        "note": "Trusted: Lean kernel and standard axioms; that the sanitizers are faithfully written as I/O programs (validated differentially incl. index-aligned faulted runs for mp4). C13_memory for webpsan (EofMapped of the webp program) is future work; its fault-free runs are compared with the model.",
+        "technique": "Lean 4 proof by induction over I/O programs (fault propagation, eof-mapping) + exhaustive fault enumeration against the real crates",
+    },
     "C06": {
         "text": "Lean theorems about the reader-stack model: nested reads/skips never cross an enclosing chunk's remaining body, consumed bytes are accounted on every enclosing level, extracted constants and FourCCs are the model's. The equivalence accepted <-> Grammar (a recursive-descent recogniser written from the property text) is evaluated on the real code, in both directions, over exhaustive chunk sequences x 32 flag sets (file level and inside ANMF), framing / size / padding / truncation families on seek-based and strict readers, RIFF sizes near 2^32 on sparse streams, and libwebp encoder + muxer output; the model must agree with webpsan on every case.",
         "note": "Partial: the grammar equivalence is decided per generated case on the implementation, not yet by a theorem. The check found F1 (truncated file accepted on seek-based readers), F2 (lossless frames checked against the canvas instead of the frame) and F7 (largest RIFF size the format allows rejected), repaired in /repo. Trusted: see evidence.",
